@@ -340,6 +340,11 @@ func parseListField(field string, bound boundary, names []string) (*cronField, e
 	if err != nil {
 		return nil, err
 	}
+	for _, v := range listValues {
+		if !inScope(v, bound.lower, bound.upper) {
+			return nil, newInvalidCronFieldError("list", field)
+		}
+	}
 	for _, v := range stepValues {
 		stepField, err := parseStepField(v, bound, names)
 		if err != nil {
